@@ -92,6 +92,14 @@ def use_infinity_object(case) -> bool:
 def lib_case(case):
     """The dictionary handed to from_dict (costs possibly using infinity.inf)."""
     d = {k: v for k, v in case.items() if not k.startswith("_")}
+    if sum(map(ord, d.get("object_tree", ""))) % 3 == 0:
+        # Newick strings may carry branch lengths: they are data of the trees, not part of the reconciliation model
+        # (every count is in edges), so a third of the inputs get some
+        from .plain import parse_newick
+
+        for key in ("object_tree", "species_tree"):
+            if key in d:
+                d[key] = parse_newick(d[key]).to_newick(lengths=[2.5, 0, 1, 0.125, 7])
     if "costs" in d:
         costs = dict(d["costs"])
         if use_infinity_object(case):
